@@ -223,3 +223,406 @@ Proof.
     destruct (f_zero b0); [exact Hrest|]. exact Hrest.
   - exact HB.
 Qed.
+
+Lemma k0_of_big man k P : 0 < P -> 256 * P <= man -> 0 <= k -> man * 2 ^ k < 512 * P -> k = 0.
+Proof.
+  intros HP Hm Hk Hlt. destruct (Z.eq_dec k 0); [assumption|exfalso].
+  assert (2 <= 2 ^ k) by (change 2 with (2 ^ 1) at 1; apply pow2_le; lia).
+  assert (man * 2 <= man * 2 ^ k) by (apply Z.mul_le_mono_nonneg_l; lia). lia.
+Qed.
+
+Lemma k_le1 man k P : 0 < P -> 128 * P <= man -> 0 <= k -> man * 2 ^ k < 512 * P -> k <= 1 /\ 2 ^ k <= 2.
+Proof.
+  intros HP Hm Hk Hlt.
+  assert (k <= 1).
+  { destruct (Z.le_gt_cases k 1) as [|Hgt1]; [assumption|exfalso].
+    assert (2 ^ 2 <= 2 ^ k) by (apply pow2_le; lia). change (2 ^ 2) with 4 in *.
+    assert (man * 4 <= man * 2 ^ k) by (apply Z.mul_le_mono_nonneg_l; lia). lia. }
+  split; [assumption|]. change 2 with (2 ^ 1) at 2. apply pow2_le. lia.
+Qed.
+
+(* ------------------------------------------------------------------------------------------------ *)
+(* opposite signs: subtraction of the smaller magnitude from the larger *)
+
+Lemma mag_post_nooverflow C strict w den Nm Dn neg r :
+  Nm < 2 ^ mbits C * 2 ^ 255 * Dn -> r <> Host 5 ->
+  (forall x, r = Host x -> x = 5) -> r <> OutOfFuel -> (forall e, r <> Err e) ->
+  (forall b, r = Ok b -> buf_ok C b /\
+     if f_zero b then Nm < 2 ^ mbits C * Dn
+     else f_neg C b = neg /\ err_ok strict (den * Z.abs (f_mag C b * Dn - Nm)) (w * 2 ^ f_exp b * Dn)) ->
+  mag_post C strict w den Nm Dn neg r.
+Proof.
+  intros Hsmall Hno Hhost Hfuel Herr Hok. split; [|intros; lia].
+  destruct r as [b|e|x|].
+  - apply Hok. reflexivity.
+  - exfalso. apply (Herr e). reflexivity.
+  - exfalso. apply Hno. rewrite (Hhost x eq_refl). reflexivity.
+  - exfalso. apply Hfuel. reflexivity.
+Qed.
+
+Lemma norm_post_shape C neg o exp man r : norm_post C neg o exp man r ->
+  (forall x, r = Host x -> x = 5) /\ r <> OutOfFuel /\ (forall e, r <> Err e).
+Proof.
+  intros (k & _ & _ & _ & Hpost). cbv zeta in Hpost.
+  destruct Hpost as [(E & _)|[(b & E & _)|(b & E & _)]]; subst r; repeat split; try congruence.
+Qed.
+
+Lemma add_core_opp C buf el ml (nl : bool) er mr (nr : bool) : fmt_ok C -> zlen buf = c_size C ->
+  1 <= el <= 255 -> 1 <= er <= 255 ->
+  2 ^ (mbits C - 1) <= ml < 2 ^ mbits C -> 2 ^ (mbits C - 1) <= mr < 2 ^ mbits C ->
+  Bool.eqb nl nr = false -> (el < er \/ (el = er /\ ml <= mr)) ->
+  mag_post C false 2 1 (mr * 2 ^ er - ml * 2 ^ el) 1 nr (norm3 C buf (add_core C el (256 * ml) nl er (256 * mr) nr))
+  /\ norm3 C buf (add_core C el (256 * ml) nl er (256 * mr) nr) <> Host 5.
+Proof.
+  intros HC Hlen Hel Her Hml Hmr Eb Hord. pose proof (mbits_ge C HC) as Hg.
+  set (P := 2 ^ (mbits C - 1)) in *. assert (HP : 0 < P) by (apply pow2_pos; lia).
+  assert (HP15 : 32768 <= P) by (unfold P; change 32768 with (2 ^ 15); apply pow2_le; lia).
+  assert (H2P : 2 ^ mbits C = 2 * P) by (apply pow2_pred; lia). rewrite H2P in Hml, Hmr.
+  assert (E7 : 2 ^ (mbits C + 7) = 256 * P).
+  { unfold P. replace (mbits C + 7) with (8 + (mbits C - 1)) by lia. rewrite pow2_split by lia. reflexivity. }
+  assert (E8 : 2 ^ (mbits C + 8) = 512 * P).
+  { unfold P. replace (mbits C + 8) with (9 + (mbits C - 1)) by lia. rewrite pow2_split by lia. reflexivity. }
+  set (o := OFF). assert (Ho : 0 <= o) by (unfold o, OFF; lia).
+  destruct (align_facts (256 * ml) el er o ltac:(lia) Ho ltac:(lia)) as (Hdm & Hrem & Hpw & Hpd & Hpel & Hq0).
+  cbv zeta in *. set (d := er - el) in *. set (Ml' := 256 * ml / 2 ^ d) in *. set (rem := (256 * ml) mod 2 ^ d) in *.
+  assert (Hd0 : 0 <= d) by (unfold d; lia).
+  (* the aligned left mantissa does not exceed the right one *)
+  assert (HMl'le : Ml' <= 256 * mr).
+  { destruct Hord as [Hlt|[Heq Hle]].
+    - assert (2 <= 2 ^ d) by (change 2 with (2 ^ 1) at 1; apply pow2_le; unfold d; lia).
+      clear - Hdm Hrem H Hml Hmr HP. nia.
+    - assert (Ed : d = 0) by (unfold d; lia). unfold Ml'. rewrite Ed. change (2 ^ 0) with 1. rewrite Z.div_1_r. lia. }
+  set (Nm := mr * 2 ^ er - ml * 2 ^ el).
+  set (S := 2 ^ (o + 8)). assert (HS : 0 < S) by (apply pow2_pos; lia).
+  assert (Ho8 : S = 256 * 2 ^ o) by (unfold S; rewrite Z.add_comm, pow2_split by lia; reflexivity).
+  assert (Hpo : 0 < 2 ^ o) by (apply pow2_pos; lia).
+  assert (Eel : 2 ^ (el + o) = 2 ^ el * 2 ^ o) by (apply pow2_split; lia).
+  assert (Eer : 2 ^ (er + o) = 2 ^ er * 2 ^ o) by (apply pow2_split; lia).
+  assert (Hper : 0 < 2 ^ (er + o)) by (apply pow2_pos; lia).
+  set (man0 := 256 * mr - Ml').
+  assert (HNS : Nm * S = man0 * 2 ^ (er + o) - rem * 2 ^ (el + o)).
+  { unfold Nm, man0. rewrite Ho8. rewrite Hpw at 1.
+    replace ((256 * mr - Ml') * (2 ^ d * 2 ^ (el + o))) with (256 * mr * (2 ^ d * 2 ^ (el + o)) - 2 ^ d * Ml' * 2 ^ (el + o)) by lia.
+    rewrite <- Hpw. replace (2 ^ d * Ml') with (256 * ml - rem) by lia. rewrite Eel, Eer. lia. }
+  assert (Ht0 : 0 <= rem * 2 ^ (el + o)) by (apply Z.mul_nonneg_nonneg; lia).
+  assert (Hremlt : rem * 2 ^ (el + o) < 2 ^ (er + o)) by (rewrite Hpw; apply Z.mul_lt_mono_pos_r; lia).
+  (* the exact difference is non-negative and below the largest number *)
+  assert (HNm0 : 0 <= Nm).
+  { assert (0 <= Nm * S); [|clear - H HS; nia]. rewrite HNS.
+    destruct (Z.eq_dec man0 0) as [E0|E0].
+    - (* equal mantissas after alignment: then d = 0 and the remainder is 0 *)
+      assert (Ed : d = 0).
+      { destruct (Z.eq_dec d 0) as [|Hd]; [assumption|exfalso].
+        assert (2 <= 2 ^ d) by (change 2 with (2 ^ 1) at 1; apply pow2_le; lia).
+        unfold man0 in E0. clear - Hdm Hrem H Hml Hmr HP E0. nia. }
+      assert (rem = 0) by (unfold rem; rewrite Ed; change (2 ^ 0) with 1; apply Z.mod_1_r). subst rem. lia.
+    - assert (1 <= man0) by (unfold man0 in *; lia).
+      assert (1 * 2 ^ (er + o) <= man0 * 2 ^ (er + o)) by (apply Z.mul_le_mono_nonneg_r; lia). lia. }
+  assert (HNmlt : Nm < 2 ^ mbits C * 2 ^ 255 * 1).
+  { rewrite H2P, Z.mul_1_r. unfold Nm.
+    assert (2 ^ er <= 2 ^ 255) by (apply pow2_le; lia). assert (0 < 2 ^ er) by (apply pow2_pos; lia).
+    assert (0 < 2 ^ el) by (apply pow2_pos; lia).
+    assert (mr * 2 ^ er <= mr * 2 ^ 255) by (apply Z.mul_le_mono_nonneg_l; lia).
+    assert (mr * 2 ^ 255 < 2 * P * 2 ^ 255) by (apply Z.mul_lt_mono_pos_r; lia).
+    assert (0 <= ml * 2 ^ el) by (apply Z.mul_nonneg_nonneg; lia). lia. }
+  assert (HSD : S * 1 = 2 ^ (o + 8) * 1) by reflexivity.
+  (* common tail: _normalise of (er, man, nr) with man close to the exact difference *)
+  assert (Htail : forall man, 0 <= man < 512 * P - 128 ->
+            (man = 0 -> Nm = 0) ->
+            (forall k, 0 <= k -> man * 2 ^ k < 512 * P -> 0 <= er - k + o ->
+               Z.abs (Nm * S - man * 2 ^ (er + o)) + 128 * 2 ^ (er - k + o) <= 512 * 2 ^ (er - k + o)) ->
+            (forall k, 0 <= k -> 256 * P - 1 <= man * 2 ^ k < 512 * P -> er - k <= 0 ->
+               man * 2 ^ (er + o) < 512 * P * 2 ^ o -> Nm * S < 512 * P * 2 ^ o) ->
+            mag_post C false 2 1 Nm 1 nr (mbf_normalise C buf er man nr) /\ mbf_normalise C buf er man nr <> Host 5).
+  { intros man Hman Hman0 Hclose Hzero.
+    destruct (Z.eq_dec man 0) as [E0|E0].
+    { subst man. rewrite normalise_man0. split; [|discriminate].
+      apply mag_post_zeros; [assumption | lia |]. rewrite (Hman0 eq_refl). rewrite H2P. lia. }
+    assert (Hm0 : 0 < man < c_den_upper C) by (rewrite (ok_den_upper C HC), E8; lia).
+    pose proof (normalise_val C buf er man nr o HC Hlen Hm0 ltac:(lia) Ho) as Hnp.
+    set (r := mbf_normalise C buf er man nr) in *.
+    assert (Hno : r <> Host 5) by (apply (norm_no_overflow C nr o er man r Ho Hnp ltac:(lia)); rewrite E8; lia).
+    split; [|exact Hno].
+    destruct (norm_post_shape _ _ _ _ _ _ Hnp) as (Hh & Hf & He).
+    apply mag_post_nooverflow; try assumption.
+    assert (HA := norm_partA C false 2 1 Nm 1 nr o er man r S 1 HC Ho HS ltac:(lia) ltac:(lia) HSD ltac:(lia) ltac:(lia) Hnp).
+    intros b0 Eb0.
+    assert (H1 : forall k : Z, 0 <= k -> 2 ^ (mbits C + 7) - 1 <= man * 2 ^ k < 2 ^ (mbits C + 8) ->
+      (2 ^ (mbits C + 7) - 1 <= man -> k = 0) -> 0 <= er - k + o ->
+      err_ok false (1 * (Z.abs (Nm * S - man * 2 ^ (er + o) * 1) + 128 * 2 ^ (er - k + o) * 1)) (2 * 256 * 2 ^ (er - k + o) * 1)).
+    { intros k Hk Hr' _ Hpos. rewrite E8 in Hr'. rewrite !Z.mul_1_r. cbn [err_ok].
+      specialize (Hclose k Hk (proj2 Hr') Hpos). lia. }
+    assert (H2 : forall k : Z, 0 <= k -> 2 ^ (mbits C + 7) - 1 <= man * 2 ^ k < 2 ^ (mbits C + 8) ->
+      (2 ^ (mbits C + 7) - 1 <= man -> k = 0) -> er - k <= 0 ->
+      man * 2 ^ (er + o) < 2 ^ (mbits C + 8) * 2 ^ o -> Nm * S < 2 ^ (mbits C + 8) * 2 ^ o * 1).
+    { intros k Hk Hr' _ Hek HV. rewrite E7, E8 in *. rewrite Z.mul_1_r. apply (Hzero k Hk Hr' Hek HV). }
+    destruct (HA H1 H2 b0 Eb0) as [Hok Hrest]. split; [exact Hok|]. destruct (f_zero b0); exact Hrest. }
+  unfold add_core. cbv zeta. rewrite Eb. cbn [negb andb].
+  rewrite land_low by lia. fold d. fold rem.
+  rewrite Z.shiftr_div_pow2 by lia. fold d. fold Ml'. rewrite !andb_true_r.
+  destruct ((Ml' <? 128) || (Ml' =? 128) && (rem =? 0)) eqn:Esh.
+  - (* shortcut: the right operand is returned; the left one is at most half a unit of its last place *)
+    unfold norm3.
+    assert (Hsmall : 2 ^ d * Ml' + rem <= 128 * 2 ^ d).
+    { apply orb_true_iff in Esh as [H1|H1].
+      - apply Z.ltb_lt in H1. assert (2 ^ d * Ml' <= 2 ^ d * 127) by (apply Z.mul_le_mono_nonneg_l; lia). lia.
+      - apply andb_true_iff in H1 as [H1 H2]. apply Z.eqb_eq in H1, H2. rewrite H1, H2. lia. }
+    assert (HV : 0 <= 256 * mr * 2 ^ (er + o) - Nm * S <= 128 * 2 ^ (er + o)).
+    { rewrite HNS. unfold man0.
+      replace (256 * mr * 2 ^ (er + o) - ((256 * mr - Ml') * 2 ^ (er + o) - rem * 2 ^ (el + o)))
+        with (Ml' * 2 ^ (er + o) + rem * 2 ^ (el + o)) by lia.
+      rewrite Hpw. replace (Ml' * (2 ^ d * 2 ^ (el + o)) + rem * 2 ^ (el + o)) with ((2 ^ d * Ml' + rem) * 2 ^ (el + o)) by lia.
+      split; [apply Z.mul_nonneg_nonneg; lia|].
+      replace (128 * (2 ^ d * 2 ^ (el + o))) with (128 * 2 ^ d * 2 ^ (el + o)) by lia.
+      apply Z.mul_le_mono_nonneg_r; lia. }
+    apply (Htail (256 * mr)); [lia | lia | |].
+    + intros k Hk Hlt Hpos.
+      assert (Ek : k = 0) by (apply (k0_of_big (256 * mr) k P); lia).
+      subst k. rewrite Z.sub_0_r. lia.
+    + intros k Hk Hr' Hek. assert (k = 0) by (apply (k0_of_big (256 * mr) k P); lia). lia.
+  - (* true subtraction *)
+    apply orb_false_iff in Esh as [Hs1 Hs2]. apply Z.ltb_ge in Hs1.
+    rewrite !andb_false_r. cbv iota. fold man0.
+    set (qc := (Z.land man0 448 =? 128) && negb (Z.land man0 479 =? 128)).
+    set (manq := if qc then Z.land man0 (c_carrymask C + 127) else man0).
+    assert (Hman0 : 0 <= man0 <= 512 * P - 256 - 128) by (unfold man0; lia).
+    (* facts about the alignment distance *)
+    assert (HD1 : d <= 1 -> rem = 0 /\ man0 mod 128 = 0).
+    { intros Hd1. assert (Ed : d = 0 \/ d = 1) by lia. unfold rem, man0, Ml'.
+      destruct Ed as [-> | ->]; [change (2 ^ 0) with 1 | change (2 ^ 1) with 2]; split; lia. }
+    assert (Hq : manq = man0 \/ (qc = true /\ manq = man0 - 128 /\ man0 mod 32 <> 0 /\ 128 <= man0)).
+    { unfold manq. destruct qc eqn:Eq; [right|left; reflexivity].
+      destruct (quirk_cond man0 ltac:(lia) Eq) as [Q1 Q2].
+      rewrite (ok_carrymask C HC). rewrite land_clear7 by (rewrite ?E8; lia).
+      destruct (Z.leb_spec 128 (man0 mod 256)); [|lia]. repeat split; try assumption; lia. }
+    assert (HqD : qc = true -> 4 <= d).
+    { intros Eq. destruct Hq as [E|(_ & _ & Hm32 & _)].
+      - (* manq = man0 although the quirk fired is impossible to tell apart: use the condition directly *)
+        destruct (quirk_cond man0 ltac:(lia) Eq) as [_ Q2].
+        destruct (Z.le_gt_cases 4 d) as [|Hlt]; [assumption|exfalso]. apply Q2.
+        assert (Ed : d = 0 \/ d = 1 \/ d = 2 \/ d = 3) by lia. unfold man0, Ml'.
+        destruct Ed as [-> | [-> | [-> | ->]]]; [change (2 ^ 0) with 1 | change (2 ^ 1) with 2 | change (2 ^ 2) with 4 | change (2 ^ 3) with 8]; lia.
+      - destruct (Z.le_gt_cases 4 d) as [|Hlt]; [assumption|exfalso]. apply Hm32.
+        assert (Ed : d = 0 \/ d = 1 \/ d = 2 \/ d = 3) by lia. unfold man0, Ml'.
+        destruct Ed as [-> | [-> | [-> | ->]]]; [change (2 ^ 0) with 1 | change (2 ^ 1) with 2 | change (2 ^ 2) with 4 | change (2 ^ 3) with 8]; lia. }
+    assert (HD2 : 2 <= d -> 128 * P <= manq).
+    { intros Hd2. destruct Hq as [E|(Eq & E & _ & _)].
+      - rewrite E. assert (4 <= 2 ^ d) by (change 4 with (2 ^ 2); apply pow2_le; lia).
+        unfold man0. clear - Hdm Hrem H Hml Hmr HP. nia.
+      - rewrite E. specialize (HqD Eq). assert (16 <= 2 ^ d) by (change 16 with (2 ^ 4); apply pow2_le; lia).
+        unfold man0. clear - Hdm Hrem H Hml Hmr HP HP15. nia. }
+    assert (Hmq : man0 - 128 <= manq <= man0 /\ 0 <= manq) by (destruct Hq as [E|(_ & E & _ & ?)]; lia).
+    unfold norm3. fold qc. fold manq.
+    apply (Htail manq); [lia | | |].
+    + (* a zero mantissa only for equal operands *)
+      intros E0. assert (Em0 : man0 = 0).
+      { destruct Hq as [E|(_ & E & Hm32 & _)]; [lia|]. exfalso. apply Hm32. replace man0 with 128 by lia. reflexivity. }
+      assert (0 <= Nm * S <= 0); [|nia]. rewrite HNS, Em0. 
+      assert (Ed : d = 0).
+      { destruct (Z.eq_dec d 0) as [|Hd]; [assumption|exfalso].
+        assert (2 <= 2 ^ d) by (change 2 with (2 ^ 1) at 1; apply pow2_le; lia).
+        unfold man0 in Em0. clear - Hdm Hrem H Hml Hmr HP Em0. nia. }
+      destruct (HD1 ltac:(lia)) as [Er _]. rewrite Er. lia.
+    + intros k Hk Hlt Hpos.
+      destruct (Z.le_gt_cases d 1) as [Hd1|Hd2].
+      * destruct (HD1 Hd1) as [Er Hm128].
+        assert (manq = man0).
+        { destruct Hq as [E|(_ & _ & Hm32 & _)]; [assumption|exfalso]. apply Hm32. lia. }
+        rewrite HNS, Er, H. rewrite Z.mul_0_l, Z.sub_0_r, Z.sub_diag. cbn [Z.abs].
+        assert (0 < 2 ^ (er - k + o)) by (apply pow2_pos; lia). lia.
+      * specialize (HD2 ltac:(lia)).
+        assert (Hk1 : 2 ^ k <= 2) by (apply (k_le1 manq k P); lia).
+        set (u := 2 ^ (er - k + o)) in *. assert (Hu : 0 < u) by (apply pow2_pos; lia).
+        assert (Eu : 2 ^ (er + o) = 2 ^ k * u) by (unfold u; rewrite <- pow2_split by lia; f_equal; lia).
+        assert (Habs : Z.abs (Nm * S - manq * 2 ^ (er + o)) <= 128 * 2 ^ (er + o)).
+        { rewrite HNS. replace (man0 * 2 ^ (er + o) - rem * 2 ^ (el + o) - manq * 2 ^ (er + o))
+            with ((man0 - manq) * 2 ^ (er + o) - rem * 2 ^ (el + o)) by lia.
+          assert (0 <= (man0 - manq) * 2 ^ (er + o) <= 128 * 2 ^ (er + o)).
+          { split; [apply Z.mul_nonneg_nonneg; lia | apply Z.mul_le_mono_nonneg_r; lia]. }
+          lia. }
+        rewrite Eu in Habs. assert (0 < 2 ^ k) by (apply pow2_pos; lia).
+        assert (128 * (2 ^ k * u) <= 256 * u).
+        { replace (128 * (2 ^ k * u)) with (128 * 2 ^ k * u) by lia. apply Z.mul_le_mono_nonneg_r; lia. }
+        lia.
+    + intros k Hk Hr' Hek HV.
+      destruct (Z.le_gt_cases d 1) as [Hd1|Hd2].
+      * destruct (HD1 Hd1) as [Er Hm128].
+        assert (manq = man0).
+        { destruct Hq as [E|(_ & _ & Hm32 & _)]; [assumption|exfalso]. apply Hm32. lia. }
+        rewrite HNS, Er, Z.mul_0_l, Z.sub_0_r, <- H. exact HV.
+      * exfalso. specialize (HD2 ltac:(lia)).
+        assert (k <= 1) by (apply (k_le1 manq k P); lia).
+        unfold d in Hd2. lia.
+Qed.
+
+(* ------------------------------------------------------------------------------------------------ *)
+(* _add_den followed by _normalise, for any two operands given as (exponent byte, mantissa, sign) *)
+
+Definition sv (e m : Z) (n : bool) : Z := if e =? 0 then 0 else (if n then -1 else 1) * m * 2 ^ e.
+
+Definition sval_post' (C : fconst) (N : Z) (r : res (list Z)) : Prop :=
+  (match r return Prop with
+   | Host x => x = 5 /\ (2 ^ mbits C - 1) * 2 ^ 255 * 1 < Z.abs N
+   | Ok b => buf_ok C b /\
+             (if f_zero b then Z.abs N < 2 ^ mbits C * 1
+              else err_ok false (1 * Z.abs (f_sval C b * 1 - N)) (2 * 2 ^ f_exp b * 1))
+   | _ => False
+   end) /\ (2 ^ mbits C * 2 ^ 255 * 1 <= Z.abs N -> r = Host 5).
+
+Lemma mag_to_sval' C Nm (neg : bool) N r : 0 <= Nm -> N = (if neg then - Nm else Nm) ->
+  mag_post C false 2 1 Nm 1 neg r -> sval_post' C N r.
+Proof.
+  intros HNm HN [H1 H2].
+  assert (Habs : Z.abs N = Nm) by (destruct neg; lia).
+  split; [|rewrite Habs; exact H2].
+  destruct r as [b|e|x|]; try exact H1.
+  - destruct H1 as [Hok Hrest]. split; [exact Hok|].
+    destruct (f_zero b); [rewrite Habs; exact Hrest|].
+    destruct Hrest as [Hn Herr]. rewrite f_sval_mag, Hn.
+    replace (Z.abs ((if neg then - f_mag C b else f_mag C b) * 1 - N)) with (Z.abs (f_mag C b * 1 - Nm))
+      by (destruct neg; lia).
+    exact Herr.
+  - rewrite Habs. exact H1.
+Qed.
+
+(* a triple that is already a normalised float: _normalise reproduces it exactly *)
+Lemma norm3_exact C buf e m (n : bool) : fmt_ok C -> zlen buf = c_size C -> 0 <= e <= 255 ->
+  2 ^ (mbits C - 1) <= m < 2 ^ mbits C ->
+  sval_post' C (sv e m n) (mbf_normalise C buf e (256 * m) n).
+Proof.
+  intros HC Hlen He Hm. pose proof (mbits_ge C HC) as Hg.
+  set (P := 2 ^ (mbits C - 1)) in *. assert (HP : 0 < P) by (apply pow2_pos; lia).
+  assert (H2P : 2 ^ mbits C = 2 * P) by (apply pow2_pred; lia).
+  unfold sv. destruct (Z.eqb_spec e 0) as [E0|E0].
+  - subst e. rewrite normalise_exp0 by lia. destruct (zeros_ok C HC) as [Hok Hv]. split.
+    + split; [exact Hok|].
+      assert (Hz : f_zero (zeros (c_size C)) = true).
+      { destruct (f_zero (zeros (c_size C))) eqn:E; [reflexivity|].
+        pose proof (f_mag_pos C _ HC Hok E) as Hp. rewrite f_sval_mag in Hv. destruct (f_neg C (zeros (c_size C))); lia. }
+      rewrite Hz. cbn [Z.abs]. rewrite H2P. lia.
+    + intros Hbig. exfalso. cbn [Z.abs] in Hbig. assert (0 < 2 ^ 255) by (apply pow2_pos; lia). rewrite H2P in Hbig. nia.
+  - rewrite normalise_norm_spec; [| assumption | assumption | lia |].
+    2:{ rewrite (ok_den_mask C HC), (ok_den_upper C HC).
+        replace (mbits C + 7) with (8 + (mbits C - 1)) by lia. replace (mbits C + 8) with (9 + (mbits C - 1)) by lia.
+        rewrite !pow2_split by lia. fold P. change (2 ^ 8) with 256. change (2 ^ 9) with 512. rewrite H2P in Hm. lia. }
+    unfold norm_result. rewrite round_even8_exact.
+    destruct (Z.eqb_spec m (2 ^ mbits C)); [lia|]. destruct (Z.gtb_spec e 255); [lia|].
+    destruct (f_encode_fields C n e m HC ltac:(unfold byte_ok; lia) Hm) as (F1 & F2 & F3).
+    pose proof (f_encode_ok C n e m HC ltac:(unfold byte_ok; lia) Hm) as Hok.
+    assert (Hsv : f_sval C (f_encode C n e m) = (if n then -1 else 1) * m * 2 ^ e) by (apply f_encode_sval; [assumption|lia|assumption]).
+    split.
+    + split; [exact Hok|]. unfold f_zero. rewrite F1. destruct (Z.eqb_spec e 0); [lia|].
+      rewrite Hsv. cbn [err_ok]. rewrite Z.mul_1_r, Z.sub_diag. cbn [Z.abs].
+      assert (0 < 2 ^ e) by (apply pow2_pos; lia). lia.
+    + intros Hbig. exfalso.
+      assert (Habs : Z.abs ((if n then -1 else 1) * m * 2 ^ e) = m * 2 ^ e).
+      { assert (0 < 2 ^ e) by (apply pow2_pos; lia). assert (0 < m * 2 ^ e) by nia. destruct n; lia. }
+      rewrite Habs, H2P in Hbig. rewrite H2P in Hm.
+      assert (2 ^ e <= 2 ^ 255) by (apply pow2_le; lia). assert (0 < 2 ^ e) by (apply pow2_pos; lia).
+      assert (m * 2 ^ e <= m * 2 ^ 255) by (apply Z.mul_le_mono_nonneg_l; lia).
+      assert (m * 2 ^ 255 < 2 * P * 2 ^ 255) by (apply Z.mul_lt_mono_pos_r; lia). lia.
+Qed.
+
+Lemma norm3_exact_noov C buf e m (n : bool) : fmt_ok C -> zlen buf = c_size C -> 0 <= e <= 255 ->
+  2 ^ (mbits C - 1) <= m < 2 ^ mbits C -> mbf_normalise C buf e (256 * m) n <> Host 5.
+Proof.
+  intros HC Hlen He Hm E. destruct (norm3_exact C buf e m n HC Hlen He Hm) as [H1 _]. rewrite E in H1.
+  destruct H1 as [_ Hlt]. pose proof (mbits_ge C HC) as Hg.
+  set (P := 2 ^ (mbits C - 1)) in *. assert (HP : 0 < P) by (apply pow2_pos; lia).
+  assert (H2P : 2 ^ mbits C = 2 * P) by (apply pow2_pred; lia). rewrite H2P in *.
+  unfold sv in Hlt. destruct (Z.eqb_spec e 0) as [E0|E0].
+  - cbn [Z.abs] in Hlt. assert (0 < 2 ^ 255) by (apply pow2_pos; lia). nia.
+  - assert (Habs : Z.abs ((if n then -1 else 1) * m * 2 ^ e) = m * 2 ^ e).
+    { assert (0 < 2 ^ e) by (apply pow2_pos; lia). assert (0 < m * 2 ^ e) by nia. destruct n; lia. }
+    rewrite Habs in Hlt.
+    assert (2 ^ e <= 2 ^ 255) by (apply pow2_le; lia). assert (0 < 2 ^ e) by (apply pow2_pos; lia).
+    assert (m * 2 ^ e <= m * 2 ^ 255) by (apply Z.mul_le_mono_nonneg_l; lia).
+    assert (m * 2 ^ 255 <= (2 * P - 1) * 2 ^ 255) by (apply Z.mul_le_mono_nonneg_r; lia). lia.
+Qed.
+
+(* ordered pair of non-zero operands *)
+Lemma add_core_sval C buf el ml (nl : bool) er mr (nr : bool) : fmt_ok C -> zlen buf = c_size C ->
+  1 <= el <= 255 -> 1 <= er <= 255 ->
+  2 ^ (mbits C - 1) <= ml < 2 ^ mbits C -> 2 ^ (mbits C - 1) <= mr < 2 ^ mbits C ->
+  (el < er \/ (el = er /\ ml <= mr)) ->
+  let t := add_core C el (256 * ml) nl er (256 * mr) nr in
+  sval_post' C (sv el ml nl + sv er mr nr) (norm3 C buf t) /\
+  (norm3 C buf t = Host 5 -> (let '(_, _, n) := t in n) = (sv el ml nl + sv er mr nr <? 0)).
+Proof.
+  intros HC Hlen Hel Her Hml Hmr Hord t. pose proof (mbits_ge C HC) as Hg.
+  assert (HP : 0 < 2 ^ (mbits C - 1)) by (apply pow2_pos; lia).
+  assert (Hpl : 0 < 2 ^ el) by (apply pow2_pos; lia). assert (Hpr : 0 < 2 ^ er) by (apply pow2_pos; lia).
+  assert (HA : 0 < ml * 2 ^ el) by nia. assert (HB : 0 < mr * 2 ^ er) by nia.
+  unfold sv. destruct (Z.eqb_spec el 0); [lia|]. destruct (Z.eqb_spec er 0); [lia|].
+  destruct (Bool.eqb nl nr) eqn:Eb.
+  - apply eqb_prop in Eb. subst nr.
+    destruct (add_core_same C buf el ml er mr nl HC Hlen Hel Her ltac:(lia) Hml Hmr) as [(e' & man & Et) Hpost].
+    fold t in Et, Hpost. split.
+    + apply (mag_to_sval' C (ml * 2 ^ el + mr * 2 ^ er) nl); [lia | destruct nl; lia | exact Hpost].
+    + intros _. rewrite Et. destruct nl; symmetry; [apply Z.ltb_lt | apply Z.ltb_ge]; lia.
+  - destruct (add_core_opp C buf el ml nl er mr nr HC Hlen Hel Her Hml Hmr Eb Hord) as [Hpost Hno].
+    fold t in Hpost, Hno. split; [|intros E; contradiction].
+    assert (Hle : ml * 2 ^ el <= mr * 2 ^ er).
+    { destruct Hord as [Hlt|[-> Hle]]; [|apply Z.mul_le_mono_nonneg_r; lia].
+      assert (2 * 2 ^ el <= 2 ^ er) by (rewrite <- pow2_S by lia; apply pow2_le; lia).
+      rewrite (pow2_pred (mbits C)) in Hml, Hmr by lia.
+      assert (ml * 2 ^ el <= 2 * 2 ^ (mbits C - 1) * 2 ^ el) by (apply Z.mul_le_mono_nonneg_r; lia).
+      assert (2 ^ (mbits C - 1) * (2 * 2 ^ el) <= mr * 2 ^ er) by (apply Z.mul_le_mono_nonneg; lia). lia. }
+    apply (mag_to_sval' C (mr * 2 ^ er - ml * 2 ^ el) nr); [lia | | exact Hpost].
+    destruct nl, nr; try discriminate; lia.
+Qed.
+
+Theorem add_den_sval C buf ea ma (na : bool) eb mb (nb : bool) : fmt_ok C -> zlen buf = c_size C ->
+  0 <= ea <= 255 -> 0 <= eb <= 255 ->
+  2 ^ (mbits C - 1) <= ma < 2 ^ mbits C -> 2 ^ (mbits C - 1) <= mb < 2 ^ mbits C ->
+  let t := mbf_add_den C (ea, 256 * ma, na) (eb, 256 * mb, nb) in
+  sval_post' C (sv ea ma na + sv eb mb nb) (norm3 C buf t) /\
+  (norm3 C buf t = Host 5 -> (let '(_, _, n) := t in n) = (sv ea ma na + sv eb mb nb <? 0)).
+Proof.
+  intros HC Hlen Hea Heb Hma Hmb t. unfold t. rewrite add_den_unfold.
+  destruct (Z.eqb_spec eb 0) as [Eb0|Eb0].
+  - replace (sv eb mb nb) with 0 by (unfold sv; subst eb; reflexivity). rewrite Z.add_0_r. unfold norm3. split.
+    + apply norm3_exact; assumption.
+    + intros E. exfalso. apply (norm3_exact_noov C buf ea ma na HC Hlen Hea Hma E).
+  - destruct (Z.eqb_spec ea 0) as [Ea0|Ea0].
+    + replace (sv ea ma na) with 0 by (unfold sv; subst ea; reflexivity). rewrite Z.add_0_l. unfold norm3. split.
+      * apply norm3_exact; assumption.
+      * intros E. exfalso. apply (norm3_exact_noov C buf eb mb nb HC Hlen Heb Hmb E).
+    + destruct ((ea >? eb) || (ea =? eb) && (256 * ma >? 256 * mb)) eqn:Esw.
+      * rewrite (Z.add_comm (sv ea ma na)).
+        apply add_core_sval; try assumption; lia.
+      * apply add_core_sval; try assumption; lia.
+Qed.
+
+(* iadd / isub on buffers *)
+Lemma sv_sval C b : sv (f_exp b) (f_man C b) (f_neg C b) = f_sval C b.
+Proof. unfold sv, f_sval, f_zero. destruct (f_exp b =? 0); reflexivity. Qed.
+
+Lemma sv_sval_neg C b : sv (f_exp b) (f_man C b) (negb (f_neg C b)) = - f_sval C b.
+Proof. unfold sv, f_sval, f_zero. destruct (f_exp b =? 0), (f_neg C b); cbn [negb]; lia. Qed.
+
+Theorem iadd_sval C a b : fmt_ok C -> buf_ok C a -> buf_ok C b ->
+  sval_post' C (f_sval C a + f_sval C b) (mbf_iadd C a b) /\
+  (mbf_iadd C a b = Host 5 ->
+   (let '(_, _, n) := mbf_add_den C (mbf_denormalise C a) (mbf_denormalise C b) in n) = (f_sval C a + f_sval C b <? 0)).
+Proof.
+  intros HC Ha Hb. rewrite iadd_norm3, !denormalise_spec by assumption.
+  rewrite <- (sv_sval C a), <- (sv_sval C b).
+  apply add_den_sval; try assumption; try apply Ha; try apply f_man_bound; try assumption.
+  - pose proof (f_exp_bound C a HC Ha). lia.
+  - pose proof (f_exp_bound C b HC Hb). lia.
+Qed.
+
+Theorem isub_sval C a b : fmt_ok C -> buf_ok C a -> buf_ok C b ->
+  sval_post' C (f_sval C a - f_sval C b) (mbf_isub C a b) /\
+  (mbf_isub C a b = Host 5 ->
+   (let '(_, _, n) := mbf_add_den C (mbf_denormalise C a) (let '(e, m, n) := mbf_denormalise C b in (e, m, negb n)) in n)
+   = (f_sval C a - f_sval C b <? 0)).
+Proof.
+  intros HC Ha Hb. rewrite isub_norm3, !denormalise_spec by assumption.
+  replace (f_sval C a - f_sval C b) with (f_sval C a + - f_sval C b) by lia.
+  rewrite <- (sv_sval C a), <- (sv_sval_neg C b).
+  apply add_den_sval; try assumption; try apply Ha; try apply f_man_bound; try assumption.
+  - pose proof (f_exp_bound C a HC Ha). lia.
+  - pose proof (f_exp_bound C b HC Hb). lia.
+Qed.
